@@ -456,7 +456,7 @@ def worker_main(path_in, path_out):
 # ------------------------------------------------------------------------------ case generation (main)
 
 def gen_cases(rng, tier):
-    n_nets = 10 if tier == "quick" else 30
+    n_nets = 14 if tier == "quick" else 60
     specs = [gen_network(rng, i) for i in range(n_nets)]
     cases = []
     cid = 0
@@ -763,6 +763,7 @@ def main():
         counters["distinct_worker_assignments"] = len(assignments)
         # ---------------------------------------------------------------- violations from Coq
         n_dis = 0
+        seen_sigs = set()
         for idx, codes in sorted(failing.items()):
             oid, label = meta[idx]
             case = by_id[oid]
@@ -773,6 +774,9 @@ def main():
             shr["runs"] = [case["runs"][i] for i in sorted(set([0] + bad_runs[:1]))]
             sig = {"analysis": case["analysis"], "code": first[1]}
             n_dis += 1
+            if json.dumps(sig, sort_keys=True) in seen_sigs:
+                continue        # one replay per (analysis, failure kind); all are counted
+            seen_sigs.add(json.dumps(sig, sort_keys=True))
             rep.violation(sig, {"case": shr, "label": label, "codes": [[r, c, CODE_TEXT.get(c, "?")] for r, c in codes[:12]],
                                 "failed": "correspondence/monitor Check.failing (code %d: %s)" % (first[1], CODE_TEXT.get(first[1])),
                                 "implementation_observation": {"single": o["tables"]["single"],
